@@ -4,6 +4,7 @@ import (
 	"bufio"
 	"bytes"
 	"fmt"
+	"github.com/Comcast/gots/v2"
 	"math/rand"
 
 	"github.com/Comcast/gots/v2/packet"
@@ -65,8 +66,19 @@ func (x01) Gen(tier string, seed int64, emit func([]Ev)) {
 				st = append(st, p[:]...)
 			}
 		}
+		variant := "full"
+		switch i % 6 {
+		case 3:
+			variant = "nopat"
+		case 4:
+			variant = "nopmt"
+		case 5:
+			variant = "cutpmt"
+		}
 		pp := patPacket(r, append([]byte{0}, patSection(pat)...), i%2 == 0)
-		st = append(st, pp[:]...)
+		if variant != "nopat" {
+			st = append(st, pp[:]...)
+		}
 		other(r.Intn(3))
 		// sometimes the tail of an earlier PMT unit (no PUSI) right after the PAT: must be skipped
 		if r.Intn(3) == 0 {
@@ -76,7 +88,17 @@ func (x01) Gen(tier string, seed int64, emit func([]Ev)) {
 		}
 		pl := c06Payload(0, nil, pmtSection(pmt), 0)
 		first := minInt(len(pl), 1+r.Intn(184))
-		for _, p := range packetise(r, pl, splitSizes(len(pl), first), pmtPid, i%3 == 0) {
+		if variant == "cutpmt" && len(pl) > 1 {
+			first = minInt(len(pl)-1, 1+r.Intn(100)) // at least two packets: the last one will be missing
+		}
+		carriage := packetise(r, pl, splitSizes(len(pl), first), pmtPid, i%3 == 0)
+		switch variant {
+		case "nopmt":
+			carriage = nil
+		case "cutpmt":
+			carriage = carriage[:len(carriage)-1]
+		}
+		for _, p := range carriage {
 			st = append(st, p[:]...)
 			if r.Intn(3) == 0 {
 				other(1)
@@ -99,7 +121,7 @@ func (x01) Gen(tier string, seed int64, emit func([]Ev)) {
 		if r.Intn(4) == 0 {
 			st = append(st, rndBytes(r, r.Intn(188))...) // partial tail
 		}
-		emit([]Ev{{"op": "demux", "stream": B(st), "pat": patEv(pat), "pmt": absPMTEv(pmt), "scte_pid": sctePid, "scte": scte}})
+		emit([]Ev{{"op": "demux", "variant": variant, "stream": B(st), "pat": patEv(pat), "pmt": absPMTEv(pmt), "scte_pid": sctePid, "scte": scte}})
 	}
 }
 
@@ -119,6 +141,9 @@ func (x01) Exec(h []Ev) []Ev {
 			pat, err := psi.ReadPAT(rd)
 			if err != nil {
 				e["pat_err"] = "err"
+				if err == gots.ErrPATNotFound {
+					e["pat_err"] = "notfound"
+				}
 				return
 			}
 			e["nump"] = pat.NumPrograms()
@@ -130,6 +155,9 @@ func (x01) Exec(h []Ev) []Ev {
 			pmt, err := psi.ReadPMT(rd, pid)
 			if err != nil {
 				e["pmt_err"] = "err"
+				if err == gots.ErrPMTNotFound {
+					e["pmt_err"] = "notfound"
+				}
 				return
 			}
 			tmp := Ev{}
